@@ -46,6 +46,8 @@ PROPS = {
             "corpus_cases": 100000, "errors_judged": 10000, "truthful": 10000, "truthful_behind_offset0": 1000, "stop_layer_ok": 1000,
             "cell.content": 100, "cell.*.Ipv4Total": 100, "cell.*.Ipv6Payload": 100, "cell.*.MacsecShort": 20,
             "cell.UdpHeader.UdpLen": 10,
+            "entry.IpHeaders::read": 100000, "entry.Ipv6Extensions::read_limited": 100000, "entry.Ipv4Extensions::read_limited": 100000,
+            "readers.staged_minimum": 100,
         },
     },
     "C05": {
@@ -65,7 +67,7 @@ PROPS = {
             "lax.stop.Vlan": 10, "lax.stop.Macsec": 10, "lax.stop.Arp": 10, "lax.stop.Ext*": 10, "lax.stop.Udp": 10,
             "lax.stop.Tcp": 10, "lax.stop.Icmp4": 5, "lax.stop.Icmp6": 5, "lax.stop.Ipv4": 10,
             "lax.incomplete_true.Macsec": 10, "lax.incomplete_true.Ipv4": 100, "lax.incomplete_true.Ipv6": 100,
-            "lax.single_agree": 1000,
+            "lax.single_agree": 1000, "stop_error_equals_strict_error": 10000,
         },
     },
     "C04": {
@@ -183,6 +185,7 @@ PROPS = {
             "duplicates_delivered": 1000, "buffers_returned": 1000, "streams_evicted": 100, "errors.unaligned": 500,
             "errors.too_big": 500, "errors.conflicting_end": 500, "conservation_checks": 50000, "buf.completed": 100,
             "bytes_reassembled_and_compared": 1000000,
+            "datagrams.with_empty_final_fragment": 1000, "fragments.empty_inner": 1000,
         },
     },
     "C12": {
@@ -376,6 +379,7 @@ PROPS = {
         "mandatory": {
             "bytes.round_trips": 1000000, "bytes.reencoded_identical_under_mask": 800000, "bytes.two_serialisers_agree": 1000000,
             "values.round_trips": 800000, "setters.ok": 1000000, "values.type.Icmpv4Header(timestamp)": 5000,
+            "bytes.accepted_by_read": 100000, "bytes.accepted_by_from_slice": 100000,
         },
         "min_distinct": {"bytes.type.*": 24, "values.type.*": 16},
     },
